@@ -386,6 +386,56 @@ float32[<3] vf32
 uint16[<=300] big16
 @sealed
 ''',
+    'cov/AlignedOdd.1.0.dsdl': '''# non-standard widths that start on a byte boundary (scalars and array elements), wide padding in the middle and at the tail
+int24 i24
+uint40 u40
+int56 i56
+int12 i12
+void4
+saturated int17 si17
+void7
+truncated uint24 tu24
+int24[2] ai24
+int40[<=3] vi40
+uint24[<=2] vu24
+void16
+int9 i9
+void7
+int48 i48
+void24
+@sealed
+''',
+    'cov/TailOdd.1.0.dsdl': '''# the last field is a byte aligned integer of a non-standard width (as in uavcan.time.Synchronization)
+uint8 a
+truncated uint56 t56
+@sealed
+''',
+    'cov/TailOdd24.1.0.dsdl': '''uint16 a
+int24 last
+@sealed
+''',
+    'cov/TailOddHolder.1.0.dsdl': '''uint8 x
+uint40 u40
+cov.TailOdd24.1.0[<=2] tail
+@sealed
+''',
+    'cov/PadTail.1.0.dsdl': '''# ends with wide, byte aligned padding; used as the last field and as the last array element elsewhere
+uint8 a
+void32
+@sealed
+''',
+    'cov/PadTailHolder.1.0.dsdl': '''uint8 x
+void12
+void4
+cov.PadTail.1.0[<=2] tail
+@sealed
+''',
+    'cov/EmptyTail.1.0.dsdl': '''# the last thing serialized has a zero-length representation (a nested empty object, an array of them)
+uint8[<=3] a
+cov.Empty.1.0 e
+cov.Empty.1.0[2] ee
+@sealed
+''',
     'cov/NarrowArr.1.0.dsdl': '''# fixed and variable arrays of narrow elements, each starting byte aligned
 uint4[3] a
 void4
